@@ -92,6 +92,13 @@ def run_for(prop, rep=None, jobs=None):
         for r in results:
             if r["status"] in ("MISSED", "FALSE-ALARM", "error"):
                 rep.error("rule=selftest reason=%s case `%s`: %s %s" % (r["kind"], r["case"], r["status"], r.get("detail") or r.get("why", "")))
+        if os.environ.get("VERIF_NO_SENSITIVITY") != "1":
+            try:
+                from . import mutants
+                from sa.darule import anchored_functions
+                rep.extra["mutation_sensitivity"] = mutants.sensitivity(prop, anchored_functions(rep), jobs=jobs)
+            except Exception as e:      # a measurement: its failure is recorded, never a verdict
+                rep.extra["mutation_sensitivity"] = dict(error="%s: %s" % (type(e).__name__, e))
         ran = summary["faults"] + summary["benign"]
         if ran < max(2, len(cs) // 2):
             rep.error("rule=selftest reason=only %d of %d self-test cases could be applied to the current tree" % (ran, len(cs)))
